@@ -39,6 +39,7 @@ type layout struct {
 	farP  int // probability (in 8ths) to place a child in another segment
 	dblP  int // probability (in 8ths) that an inter-segment pointer is double-far
 	slack bool
+	dirty bool // fill list padding bytes (not part of any value) with garbage
 }
 
 func (l *layout) alloc(seg, n int) int {
@@ -130,6 +131,11 @@ func (l *layout) writePtr(pseg, poff int, v *Val) {
 			}
 		default:
 			copy(l.segs[oseg][ooff:], v.Prim)
+			if l.dirty {
+				for k := ooff + nbytes; k < ooff+pad8(nbytes); k++ {
+					l.segs[oseg][k] = byte(1 + l.r.Intn(255))
+				}
+			}
 		}
 	}
 	// pointer
@@ -154,9 +160,12 @@ func (l *layout) writePtr(pseg, poff int, v *Val) {
 	l.put(pseg, poff, 2|uint64(padOff/8)<<3|uint64(oseg)<<32)
 }
 
+// DirtyPadding lets Encode fill list padding with garbage in a third of the layouts.
+var DirtyPadding = true
+
 // Encode lays the tree out; the root pointer is word 0 of segment 0.
 func Encode(r *lib.Rng, root *Val, nseg, farP, dblP int, slack bool) [][]byte {
-	l := &layout{r: r, nseg: nseg, farP: farP, dblP: dblP, slack: slack}
+	l := &layout{r: r, nseg: nseg, farP: farP, dblP: dblP, slack: slack, dirty: DirtyPadding && r.Chance(1, 3)}
 	l.alloc(0, 8)
 	for i := 1; i < nseg; i++ {
 		l.alloc(i, 0)
